@@ -156,4 +156,35 @@ theorem step_ids (s : State) (e : Ev) :
         have := afterBuild_ids s rsv
         simp [this.1, this.2]
 
+/-! ### the local vector never becomes empty -/
+
+theorem set_ne_nil (d : Vec) (k : Bytes) (q : Nat) : PyDict.set d k q ≠ [] := by
+  cases d with
+  | nil => simp [PyDict.set]
+  | cons a r => obtain ⟨a1, a2⟩ := a; simp only [PyDict.set]; split <;> simp
+
+theorem mergeLoop_ne_nil : ∀ (rsv : List (Bytes × Nat)) (loc : Vec) (nf nn : Bool),
+    loc ≠ [] → (mergeLoop rsv loc nf nn).1 ≠ []
+  | [], loc, nf, nn, h => by simpa [mergeLoop] using h
+  | (i, q) :: r, loc, nf, nn, h => by
+    simp only [mergeLoop]
+    split
+    · exact mergeLoop_ne_nil r _ _ _ (set_ne_nil loc i q)
+    · split
+      · exact mergeLoop_ne_nil r _ _ _ h
+      · exact mergeLoop_ne_nil r _ _ _ h
+
+theorem step_loc_ne_nil (s : State) (e : Ev) (h : s.loc ≠ []) : (step s e).1.loc ≠ [] := by
+  cases e with
+  | undecodable => simpa [step] using h
+  | timer => simp only [step]; split <;> exact h
+  | publish => simp only [step]; exact set_ne_nil _ _ _
+  | recv es =>
+    simp only [step]
+    split
+    · exact h
+    · split
+      · exact h
+      · rw [afterBuild_loc]; exact mergeLoop_ne_nil _ _ _ _ h
+
 end Ndn.Svs
